@@ -58,8 +58,9 @@ def parse_records(text):
             continue
         if cur is None or not l:
             continue
-        if l.startswith("CRASH") or l.startswith("TIMEOUT"):
-            cur.status = l
+        m = re.search(r"(CRASH (?:sig|exit)=\d+|TIMEOUT)$", l)
+        if m:
+            cur.status = m.group(1)
             continue
         if l == "END":
             continue
